@@ -185,3 +185,7 @@ def run(rep, tier):  # noqa: F811
     append_tier_table(rep, "interval", "point", 1, 1)
     append_tier_table(rep, "point", "interval", 1, 1)
     append_textgrid_table(rep)
+    from .c12 import lifting
+    rep.rule("L-lifting-editTimestamps", "Textgrid.editTimestamps on a generic textgrid (including an empty tier): per-tier result equals the tier-level editTimestamps; errors and warnings as for the tiers")
+    for shape in ([("interval", "I", 1), ("point", "E", 0)], [("interval", "E", 0), ("point", "P", 1)]):
+        lifting(rep, shape, only="editTimestamps")
